@@ -10,6 +10,7 @@ Predicates (on the implementation's outputs only): table entry = what was reques
 (transcriptions of C11_table_iff_requested, C11_reject_iff_double); column-wise feasibility of the RETURNED factors of
 constrained_parafac / ConstrainedCP for the eight hard constraint kinds."""
 import glob, itertools, json, os, random
+from fractions import Fraction
 import numpy as np
 from harness import common as C
 
@@ -496,7 +497,8 @@ def _ndim_names(fn):
     import ast
     out = set()
     for st in ast.walk(fn):
-        if isinstance(st, ast.Assign) and len(st.targets) == 1 and isinstance(st.targets[0], ast.Name) and _is_ndim(st.value, set()):
+        if (isinstance(st, ast.Assign) and len(st.targets) == 1 and isinstance(st.targets[0], ast.Name) and _is_ndim(st.value, set())
+                and len(_stores(fn, st.targets[0].id)) == 1):
             out.add(st.targets[0].id)
     return out
 
@@ -536,8 +538,51 @@ def _loop_alias(loop, name):
             and _is_name(binds[0].targets[0], name) and _is_name(binds[0].value, loop.target.id))
 
 
+def _stores(fn, name):
+    """the statements of fn (any depth) that bind `name` (assignment, augmented assignment, loop target, walrus, with/except/import alias, del)"""
+    import ast
+    out = []
+    for st in ast.walk(fn):
+        if isinstance(st, ast.Name) and st.id == name and isinstance(st.ctx, (ast.Store, ast.Del)):
+            out.append(st)
+        elif isinstance(st, ast.alias) and (st.asname or st.name.split(".")[0]) == name:
+            out.append(st)
+        elif isinstance(st, ast.ExceptHandler) and st.name == name:
+            out.append(st)
+        elif isinstance(st, (ast.FunctionDef, ast.ClassDef)) and st is not fn and st.name == name:
+            out.append(st)
+        elif isinstance(st, (ast.Global, ast.Nonlocal)) and name in st.names:
+            out.append(st)
+    return out
+
+
+def _order_none_default(fn, call_stmt):
+    """`order` is bound exactly once in fn, by `if order is None: order = 0` (no else) or `order = 0 if order is None else order`, a top-level
+    statement of fn placed before the top-level statement that holds the call"""
+    import ast
+    def is_none_test(t):
+        return (isinstance(t, ast.Compare) and _is_name(t.left, "order") and len(t.ops) == 1 and isinstance(t.ops[0], ast.Is)
+                and isinstance(t.comparators[0], ast.Constant) and t.comparators[0].value is None)
+    def is_zero(e):
+        return isinstance(e, ast.Constant) and type(e.value) is int and e.value == 0
+    def assigns_order(st, value_ok):
+        return isinstance(st, ast.Assign) and len(st.targets) == 1 and _is_name(st.targets[0], "order") and value_ok(st.value)
+    if len(_stores(fn, "order")) != 1:
+        return False
+    top_of_call = next((i for i, st in enumerate(fn.body) if any(x is call_stmt for x in ast.walk(st))), None)
+    if top_of_call is None:
+        return False
+    for st in fn.body[:top_of_call]:
+        if isinstance(st, ast.If) and is_none_test(st.test) and not st.orelse and len(st.body) == 1 and assigns_order(st.body[0], is_zero):
+            return True
+        if assigns_order(st, lambda v: isinstance(v, ast.IfExp) and is_none_test(v.test) and is_zero(v.body) and _is_name(v.orelse, "order")):
+            return True
+    return False
+
+
 def _static_forward(fn, callee, self_attrs=False):
-    """(pairs, oexp, nexp) of the single call of `callee` in fn"""
+    """(pairs, oexp, nexp) of the single call of `callee` in fn.  A forwarded parameter name that is re-bound anywhere in fn does not count as
+    'the function's own parameter' (fail closed) - except admm's `if order is None: order = 0`, reported as OParamNone0."""
     import ast
     calls = _calls_with_loops(fn, callee)
     if len(calls) != 1:
@@ -571,13 +616,13 @@ def _static_forward(fn, callee, self_attrs=False):
             if self_attrs:
                 src = v.attr if isinstance(v, ast.Attribute) and _is_name(v.value, "self") else None
             else:
-                src = v.id if isinstance(v, ast.Name) and v.id in params else None
+                src = v.id if isinstance(v, ast.Name) and v.id in params and not _stores(fn, v.id) else None
             if src in KINDS:
                 pairs.append(f"({_kcoq(kw.arg)}, {_kcoq(src)})")
             # anything else: the pair is missing and forward_ok fails (fail closed)
         elif kw.arg == "order":
             if isinstance(v, ast.Name) and v.id == "order" and "order" in params:
-                oexp = "OParam"
+                oexp = "OParam" if not _stores(fn, "order") else "OParamNone0" if _order_none_default(fn, stmt) else "OOther"
             elif isinstance(v, ast.Name) and loops and isinstance(loops[-1].target, ast.Name) and _loop_alias(loops[-1], v.id):
                 it = loops[-1].iter
                 if _is_name(it, "modes_list"):
@@ -592,7 +637,8 @@ def _static_forward(fn, callee, self_attrs=False):
             else:
                 oexp = "OOther"
         elif kw.arg == "n_const":
-            nexp = "NParam" if (isinstance(v, ast.Name) and v.id == "n_const" and "n_const" in params) else "NNdimTensor" if _is_ndim(v, nd) else "NOther"
+            nexp = ("NParam" if (isinstance(v, ast.Name) and v.id == "n_const" and "n_const" in params and not _stores(fn, "n_const"))
+                    else "NNdimTensor" if _is_ndim(v, nd) else "NOther")
     return pairs, oexp, nexp
 
 
@@ -639,6 +685,23 @@ def static_cases():
     for site, fn, callee, selfa in sites:
         pairs, oexp, nexp = _static_forward(fn, callee, selfa)
         cases.append(f"SForward {len(cases)}%nat {site} [{'; '.join(pairs)}] {oexp} {nexp}"); names.append(f"{fn.name} -> {callee}")
+    # SAdmmStart: before its loop admm binds x_split = tl.transpose(x) (fix fe4edf7: the value returned when the loop body never runs; the model returns
+    # (x, x, dual) there) and nothing else re-binds x, x_split or dual_var before the loop
+    adm = _find_def(ad, "admm")
+    loop_i = next((i for i, st in enumerate(adm.body) if isinstance(st, ast.For)), None)
+    if loop_i is None or sum(isinstance(st, ast.For) for st in adm.body) != 1:
+        raise StaticError("admm: expected exactly one top-level for loop")
+    pre = adm.body[:loop_i]
+    def binds(st, name):
+        return any(isinstance(t, ast.Name) and t.id == name and isinstance(t.ctx, ast.Store) for t in ast.walk(st))
+    split_stmts = [st for st in pre if binds(st, "x_split")]
+    split_ok = (len(split_stmts) == 1 and isinstance(split_stmts[0], ast.Assign) and len(split_stmts[0].targets) == 1 and _is_name(split_stmts[0].targets[0], "x_split")
+                and isinstance(split_stmts[0].value, ast.Call) and _is_tl(split_stmts[0].value.func, "transpose") and len(split_stmts[0].value.args) == 1
+                and not split_stmts[0].value.keywords and _is_name(split_stmts[0].value.args[0], "x"))
+    start_kept = not any(binds(st, "x") or binds(st, "dual_var") for st in pre)
+    ret = adm.body[-1]
+    ret_ok = (isinstance(ret, ast.Return) and isinstance(ret.value, ast.Tuple) and [getattr(e, "id", None) for e in ret.value.elts] == ["x", "x_split", "dual_var"])
+    cases.append(f"SAdmmStart {len(cases)}%nat {C.boolc(split_ok)} {C.boolc(start_kept)} {C.boolc(ret_ok)}"); names.append("admm: statements before the loop / return")
     # SClassInit: self.<kw> = <kw>
     init = _find_def(cp, "__init__", "ConstrainedCP")
     iparams = {a.arg for a in init.args.args + init.args.kwonlyargs}
@@ -800,7 +863,8 @@ def checked_modes(cfg):
         for k in KINDS:
             ok, p = requested(n, spec.get(k), m)
             if ok and k in HARD:
-                in_range = cfg["init"] in ("svd", "random") or (m in upd and cfg["n_outer"] > 0)
+                # a user's factor is projected only where the run updates it: outer AND inner budget >= 1 (inner budget 0: admm returns its start, fix fe4edf7)
+                in_range = cfg["init"] in ("svd", "random") or (m in upd and cfg["n_outer"] > 0 and cfg["n_inner"] > 0)
                 if in_range or cfg["init"] == "user_feasible":
                     out.append((m, k, p))
     return out
@@ -828,7 +892,8 @@ def stop_lits(cfg):
     """(tol, criterion, cerr_small) of Corr.C11.model_trace_c; cerr_small (`constraint_error < tol_outer`) is decidable for the tolerances
     the cvg stream uses: never for 1e-300, always for 1e300 (a NaN / inf constraint error only occurs in runs that are skipped)"""
     tol = cfg.get("tol_outer", 1e-8)
-    return bool(tol), KNOWN_CRITERIA.get(cfg.get("cvg") or "abs_rec_error", "CrUnknown"), bool(tol) and tol >= 1e100
+    # with an inner budget of 0 admm returns (x, transpose(x), dual): the constraint error is exactly 0, below every positive tolerance
+    return bool(tol), KNOWN_CRITERIA.get(cfg.get("cvg") or "abs_rec_error", "CrUnknown"), bool(tol) and (tol >= 1e100 or (cfg["n_inner"] == 0 and tol > 0))
 
 
 def unknown_criterion_reached(cfg):
@@ -838,15 +903,14 @@ def unknown_criterion_reached(cfg):
 
 def corner_raise(cfg):
     """raises of constrained_parafac that are not validation errors and that the model mirrors (C11_no_mode_updated_raises,
-    C11_wrong_factor_count_raises, err_defined, inner budget 0): the request is valid but the run must raise"""
+    C11_wrong_factor_count_raises, err_defined): the request is valid but the run must raise"""
     n = len(cfg["shape"])
     if cfg["n_outer"] == 0:
         return False
     upd = updated_modes(n, cfg["fixed"])
     if not upd:
         return True                      # fixed_modes = [0, .., n-1, n-1]: nothing updated, `mttkrp` unbound
-    if cfg["n_inner"] == 0:
-        return True                      # x_split unbound
+    # inner budget 0 no longer raises (fix fe4edf7: admm returns its start)
     if unknown_criterion_reached(cfg):
         return True                      # TypeError("Unknown convergence criterion") at the second sweep (C11_unknown_criterion_raises)
     if n_init_of(cfg) != n:
@@ -905,7 +969,7 @@ def run_predicates(cfg, res):
     if res["status"] in ("skip",):
         return fails, 0
     if res["status"] != "ok" and corner_raise(cfg):
-        return fails, 0      # a raise the model mirrors (inner budget 0, no mode updated, wrong number of factors, error
+        return fails, 0      # a raise the model mirrors (no mode updated, wrong number of factors, error
                              # computation of a fixed last mode): compared through the trace, not judged here
     if res["status"] != "ok":
         if degenerate_message(res["message"]):
@@ -1006,9 +1070,12 @@ def run_admm(cfg, rec):
         ls = np.transpose(np.linalg.solve(np.transpose(UtU), np.transpose(UtM)))
         fails = [] if np.array_equal(np.asarray(v[2]), dual) else [("C11_n_const_none_ignores_request", "admm(n_const=None) changed the dual variable")]
         return ("(Ok PvRaw)" if (x.shape == ls.shape and np.allclose(x, ls, rtol=1e-12, atol=1e-14)) else "(Ok (PvUser 0%nat))" if np.array_equal(x, x0) else "(Ok PvOther)"), fails, False
+    okw = {} if cfg.get("order_omitted") else {"order": order}       # order=None explicitly, or left at admm's default (None)
     with rec:
-        st, v = C.call_impl(admm, UtM, UtU, x0, dual, n_iter_max=cfg["n_iter"], n_const=n, order=order, tol=cfg.get("tol", 1e-6), **spec)
+        st, v = C.call_impl(admm, UtM, UtU, x0, dual, n_iter_max=cfg["n_iter"], n_const=n, tol=cfg.get("tol", 1e-6), **okw, **spec)
     calls = list(rec.calls)
+    if order is None:
+        order = 0                                                     # Model/ConstraintsNc.v order_of: `if order is None: order = 0`
     exp = expected_table(n, spec)
     fails = []
     if st != "ok":
@@ -1017,7 +1084,7 @@ def run_admm(cfg, rec):
         if exp is not None and not any(e is AMBIGUOUS for e in exp) and cfg["n_iter"] > 0:
             fails.append(("C11_valid_request_returns", f"admm raised on a valid request: {v}"))
         return "Err", fails, False
-    if exp is None:
+    if exp is None and cfg["n_iter"] > 0:      # inner budget 0: admm returns its start without calling proximal_operator - nothing is validated
         fails.append(("C11_reject_iff_double", "admm accepted a request with two constraints on one mode"))
     x = np.asarray(v[0])
     if calls and calls[-1][3].shape == x.shape and np.array_equal(calls[-1][3], x, equal_nan=True):
@@ -1027,7 +1094,7 @@ def run_admm(cfg, rec):
     else:
         lit = "(Ok PvOther)"
     judged = False
-    if exp is not None and exp[order] is not None and exp[order] is not AMBIGUOUS and exp[order][0] in HARD:
+    if cfg["n_iter"] > 0 and exp is not None and exp[order] is not None and exp[order] is not AMBIGUOUS and exp[order][0] in HARD:
         k, p = exp[order]
         msg = feasible(k, p, x)
         if msg != "degenerate":
@@ -1035,6 +1102,115 @@ def run_admm(cfg, rec):
             if msg:
                 fails.append(("C11_feasible_" + k, f"admm(order={order}, {k}={p!r}) returned an infeasible primal variable: {msg}"))
     return lit, fails, judged
+
+
+# ----------------------------------------------------------------------------- the stopping rule on numbers (CStopNum)
+def _close(a, b):
+    return abs(a - b) <= 1e-9 * max(abs(a), abs(b))
+
+
+def predicted_sweeps(n_outer, tol, crit, cerrs, errs):
+    """Python transcription of C11_stop_rule_numeric inside the outer loop: number of sweeps executed, or 'raise'; None if a comparison is
+    ill-conditioned (a quantity within 1e-9 relative of the tolerance: the float subtraction of the code and the exact one of the model may differ)"""
+    for it in range(n_outer):
+        if it >= len(cerrs):
+            return f"more than {it}"                    # the recorded sequences end here: the run stopped earlier than the rule says
+        if tol != 0 and it >= 1:
+            if _close(cerrs[it], tol):
+                return None
+            if cerrs[it] < tol:
+                return it + 1
+            if crit not in KNOWN_CRITERIA:
+                return "raise"
+            if it >= len(errs):
+                return f"more than {it}"
+            dec = Fraction(errs[it - 1]) - Fraction(errs[it])
+            if _close(abs(dec), Fraction(tol)) or _close(dec, Fraction(tol)):
+                return None
+            if (abs(dec) if crit == "abs_rec_error" else dec) < Fraction(tol):
+                return it + 1
+    return n_outer
+
+
+def run_stop_num(cfg):
+    """a real run of constrained_parafac(return_errors=True) with `admm` of tensorly.decomposition._constrained_cp interposed: the constraint
+    error after every sweep (recomputed as the code does, from the values admm returned), rec_errors, the number of sweeps.
+    Returns (Gallina case body | None, predicate failures)."""
+    import tensorly as tl
+    import tensorly.decomposition._constrained_cp as D
+    from tensorly.decomposition import constrained_parafac
+    X = make_data(cfg)
+    n = len(cfg["shape"])
+    spec = spec_from_json(cfg["spec"])
+    orig = D.admm
+    recs = []
+
+    def wrapper(*a, **kw):
+        out = orig(*a, **kw)
+        recs.append((kw.get("order"), np.array(out[0], copy=True), np.array(out[1], copy=True)))
+        return out
+    kw = dict(n_iter_max=cfg["n_outer"], n_iter_max_inner=cfg["n_inner"], init="random", random_state=cfg["seed"], tol_outer=cfg["tol_outer"],
+              return_errors=True, **spec)
+    if cfg.get("cvg") is not None:
+        kw["cvg_criterion"] = cfg["cvg"]
+    D.admm = wrapper
+    try:
+        st, v = C.call_impl(constrained_parafac, X, cfg["rank"], **kw)
+    finally:
+        D.admm = orig
+    if len(recs) % n:
+        return None, []
+    cerrs = []
+    for s_ in range(len(recs) // n):
+        ce = 0
+        for (_, x, xs) in recs[s_ * n:(s_ + 1) * n]:
+            ce += tl.norm(x - tl.transpose(xs)) / tl.norm(x)
+        cerrs.append(float(ce))
+    crit = cfg.get("cvg") or "abs_rec_error"
+    tol = cfg["tol_outer"]
+    if st == "ok":
+        errs = [float(e) for e in v[1]]
+        observed = len(errs)
+    elif isinstance(v, str) and "Unknown convergence criterion" in v:
+        errs, observed = [], "raise"
+    else:
+        return None, []
+    if not all(np.isfinite(cerrs)) or not all(np.isfinite(errs)):
+        return None, []
+    pred = predicted_sweeps(cfg["n_outer"], tol, crit, cerrs, errs)
+    if pred is None:
+        return None, []
+    fails = []
+    if pred != observed:
+        fails.append(("C11_stop_rule_numeric", f"constrained_parafac(tol_outer={tol!r}, cvg_criterion={crit!r}, n_iter_max={cfg['n_outer']}) executed {observed} sweeps; "
+                                               f"the stopping rule on the recorded constraint errors {cerrs[:4]} / reconstruction errors {errs[:4]} gives {pred}"))
+    exp = "Err" if observed == "raise" else "(Ok " + C.nat_list([observed] * n) + ")"
+    body = (f"{n}%nat {cfg['n_outer']}%nat {C.q(float(tol))} {KNOWN_CRITERIA.get(crit, 'CrUnknown')} {C.q_list(cerrs)} {C.q_list(errs)} {exp}")
+    return body, fails
+
+
+def gen_stop_cfgs(tier, rng):
+    mult = 1 if tier == "quick" else 5
+    kinds = [("non_negative", True), ("simplex", 1.0), ("monotonicity", True), ("soft_sparsity", 0.75), ("hard_sparsity", 3)]
+    for _ in range(36 * mult):
+        k, p = rng.choice(kinds)
+        n = 3
+        yield dict(kind="stopnum", shape=[rng.randint(3, 5) for _ in range(n)], rank=2, data=rng.choice(["signed", "pos", "int"]), seed=rng.randrange(1 << 30),
+                   n_outer=rng.choice([0, 1, 2, 3, 4, 6, 9]), n_inner=rng.choice([1, 2, 5]),
+                   tol_outer=rng.choice([0, 0.0, 1e-300, 1e-8, 1e-4, 1e-3, 1e-2, 3e-2, 0.1, 0.3, 1.0, -1e-3, 1e300]),
+                   cvg=rng.choice([None, "abs_rec_error", "rec_error", "rec_error", "bogus"]),
+                   spec=spec_to_json({k: form_spec(k, rng.choice(["scalar", "dict"]), tuple(range(n)), n, p)}))
+
+
+    # runs whose reconstruction error INCREASES by more than the tolerance in some sweep (hard thresholding / unimodality on positive data do that in
+    # most runs): here abs(decrease) < tol and decrease < tol differ
+    for _ in range(14 * mult):
+        k, p = rng.choice([("hard_sparsity", 3), ("unimodality", True)])
+        n = 3
+        yield dict(kind="stopnum", shape=[rng.randint(3, 5) for _ in range(n)], rank=2, data="pos", seed=rng.randrange(1 << 30),
+                   n_outer=rng.choice([4, 6, 9]), n_inner=rng.choice([1, 2, 5]), tol_outer=rng.choice([1e-3, 1e-2]),
+                   cvg=rng.choice([None, "abs_rec_error", "abs_rec_error", "rec_error"]),
+                   spec=spec_to_json({k: form_spec(k, rng.choice(["scalar", "dict"]), tuple(range(n)), n, p)}))
 
 
 def direct_operators():
@@ -1081,8 +1257,9 @@ def run_prox(cfg):
     T = structured_matrix(rs, cfg["rows"], cfg["rank"], cfg.get("input", "generic"), cfg.get("scale", 1.0))
     n, order = cfg["n"], cfg["order"]
     spec = spec_from_json(cfg["spec"])
-    if cfg.get("n_const_none"):
-        st, out = C.call_impl(proximal_operator, np.array(T, copy=True), n_const=None, order=order, **spec)
+    if cfg.get("n_const_none") or order is None:
+        # n_const=None: the input comes back whatever the keywords; order=None with a number of constraints: constraints[None] raises
+        st, out = C.call_impl(proximal_operator, np.array(T, copy=True), n_const=(None if cfg.get("n_const_none") else n), order=order, **spec)
         if st != "ok":
             return "Err", []
         return ("(Ok PvRaw)" if same_array(out, T) else "(Ok PvOther)"), []
@@ -1313,7 +1490,7 @@ def gen_run_cfgs(tier, rng):
             spec = {k1: form_spec(k1, f1, (m,), n, RUN_PARAMS[k1][0]), k2: form_spec(k2, f2, (m,), n, RUN_PARAMS[k2][0])}
             cfg.update(n_outer=n_outer, n_inner=1, init=init, spec=spec_to_json(spec))
             yield cfg, "double"
-    # inner budget 0: admm returns a variable its loop never bound (the code raises, the model is Err) as soon as one mode is
+    # inner budget 0: admm returns its start, nothing is projected or validated inside admm (fix fe4edf7; before it the code raised) as soon as one mode is
     # updated; with outer budget 0 nothing is updated and the initial factors come back
     for _ in range(10 * mult):
         cfg = base()
@@ -1479,7 +1656,7 @@ def gen_small_cfgs(tier, rng):
                 order = rng.randrange(n)
                 yield dict(kind="prox", n=n, order=order, rank=rng.choice([2, 3]), rows=rng.randint(5, 7), seed=rng.randrange(1 << 30),
                            spec=spec_to_json({k: form_spec(k, form, tuple(range(n)) if form == "scalar" else (order,), n, p)})), "prox"
-    # inner budget 0: x_split is never bound, admm raises (Err in the model)
+    # inner budget 0: admm returns its start (x, transpose(x), dual) without calling proximal_operator (fix fe4edf7)
     for _ in range(8 * mult):
         n = rng.choice([1, 3])
         order = rng.randrange(n)
@@ -1497,6 +1674,22 @@ def gen_small_cfgs(tier, rng):
                    zero_dual=rng.random() < 0.5, tol=1e-6, n_const_none=True, spec=spec_to_json(spec)), "admm_n_const_none"
         yield dict(kind="prox", n=n, order=order, rank=rng.choice([1, 2, 3]), rows=rng.randint(3, 6), seed=rng.randrange(1 << 30), n_const_none=True,
                    spec=spec_to_json(spec)), "prox_n_const_none"
+    # `order` left at None: admm works on mode 0 (fix a5b9e5b; Model/ConstraintsNc.v admm_py), with the keyword omitted or passed as None; valid
+    # requests that constrain mode 0 or another mode, double constraints, inner budgets 0/1/3; proximal_operator(order=None) raises unless n_const is None
+    for _ in range(14 * mult):
+        n = rng.choice([1, 3, 3, 4])
+        target = 0 if rng.random() < 0.6 else rng.randrange(n)
+        spec = one_spec(n, target)
+        if rng.random() < 0.15:
+            k2 = rng.choice([x for x in KINDS if x not in spec])
+            spec[k2] = form_spec(k2, rng.choice(["scalar", "dict"]), (target,), n, RUN_PARAMS[k2][0])
+        yield dict(kind="admm", n=n, order=None, order_omitted=rng.random() < 0.5, rank=rng.choice([1, 2, 3]), rows=rng.randint(3, 6),
+                   n_iter=rng.choice([0, 1, 1, 3]), seed=rng.randrange(1 << 30), zero_dual=rng.random() < 0.6, tol=1e-6, spec=spec_to_json(spec)), "admm_order_none"
+    for _ in range(4 * mult):
+        n = rng.choice([1, 3])
+        nc_none = rng.random() < 0.5
+        yield dict(kind="prox", n=n, order=None, rank=2, rows=rng.randint(3, 5), seed=rng.randrange(1 << 30), n_const_none=nc_none,
+                   spec=spec_to_json(one_spec(n, 0))), "prox_order_none"
     # the zero matrix through the dispatch: 0/0 for the two normalising kinds (known finding), feasible output for the others
     for k in HARD:
         n = rng.choice([1, 3])
@@ -1633,7 +1826,11 @@ def run(chk):
             chk.finding(ep, cfg, msg, pred)
         if lit is not None:
             cid = len(cases)
-            if cfg["kind"] == "admm" and cfg.get("n_const_none"):
+            if cfg["kind"] == "admm" and cfg["order"] is None:
+                cases.append(f"CAdmmNone {idlit(cid)} {cfg['n']}%nat {specs_lit(spec)} {cfg['n_iter']}%nat {lit}")
+            elif cfg["order"] is None:
+                cases.append(f"CProxNone {idlit(cid)} {'None' if cfg.get('n_const_none') else '(Some ' + str(cfg['n']) + '%nat)'} {specs_lit(spec)} {lit}")
+            elif cfg["kind"] == "admm" and cfg.get("n_const_none"):
                 cases.append(f"CAdmmNc {idlit(cid)} {specs_lit(spec)} {cfg['order']}%nat {cfg['n_iter']}%nat {lit}")
             elif cfg["kind"] == "admm":
                 cases.append(f"CAdmm {idlit(cid)} {cfg['n']}%nat {specs_lit(spec)} {cfg['order']}%nat {cfg['n_iter']}%nat {lit}")
@@ -1642,6 +1839,20 @@ def run(chk):
             else:
                 cases.append(f"CProx {idlit(cid)} {cfg['n']}%nat {specs_lit(spec)} {cfg['order']}%nat {lit}")
             meta.append((cfg["kind"], cfg, lit))
+
+    # the stopping rule on numbers: the model's loop with stop_env_num at exact rationals on the recorded sequences vs the number of sweeps
+    n_stop = 0
+    for cfg in gen_stop_cfgs(tier, rng):
+        body, fails = run_stop_num(cfg)
+        chk.count(key=("stopnum", cfg["n_outer"], cfg["tol_outer"], cfg["cvg"], tuple(cfg["spec"])), nontrivial=body is not None)
+        chk.hist("stop_num", "skipped" if body is None else "compared")
+        for (pred, msg) in fails:
+            chk.finding("tensorly.decomposition.constrained_parafac", cfg, msg, pred)
+        if body is not None:
+            cases.append(f"CStopNum {idlit(len(cases))} {body}")
+            meta.append(("stopnum", cfg, body[-40:]))
+            n_stop += 1
+    chk.cov["stopping_rule_runs_compared"] = n_stop
 
     # (e) every array the Python feasibility predicate accepted is decided again inside Coq on its exact rational value
     n_feas_coq = 0
@@ -1717,7 +1928,10 @@ def run(chk):
         "random triples; negative dict keys (alone, disjoint, below -n, twice in one dict, aliasing another keyword's mode); "
         "each compared exactly with Model/Constraints.v and judged by the Python transcription of the theorems. "
         "admm stream: tensorly.solvers.admm.admm on random well-conditioned normal equations with n_const 1/3/4, every order, inner budgets 1/2/4, "
-        "provenance of the returned primal variable vs the model + feasibility; dispatch stream: proximal_operator on signed matrices, the operator "
+        "provenance of the returned primal variable vs the model + feasibility, also with `order` omitted / None (mode 0: Model/ConstraintsNc.v admm_py); "
+        "stopping-rule stream: constrained_parafac(return_errors=True) with admm interposed, five hard kinds + unimodality x tol_outer {0, 1e-300 .. 1.0, -1e-3, 1e300} x "
+        "{default, abs_rec_error, rec_error, unknown} x outer budgets 0-9, incl. runs whose error increases by more than the tolerance; the model's loop with the "
+        "comparisons computed at exact rationals on the recorded sequences must execute the observed number of sweeps; dispatch stream: proximal_operator on signed matrices, the operator "
         "identified by value against the directly called operator functions vs the model's dispatch. "
         "run stream: 8 hard kinds x {scalar, list, dict} x outer budgets {0,1,3} x inner budgets {1,3} over signed/integer/negative/positive/scaled data of order 3-4, "
         "ranks 1-3, svd/random/user/user(unit weights)/feasible-user inits, fixed modes, function and class entry points, mixed specifications and double constraints; "
@@ -1733,6 +1947,9 @@ def run(chk):
         elif m[0] == "feas":
             chk.disagreement("corr:C11 feasibility (Corr.C11.feasb on the exact rational value vs the Python predicate, which accepted the array)",
                              {"kind": m[1], "parameter": m[2], "array": m[3]})
+        elif m[0] == "stopnum":
+            chk.disagreement("corr:C11 stopping rule (Model/ConstraintsStop.v stop_env_num at exact rationals on the recorded constraint / reconstruction "
+                             "errors vs the number of sweeps constrained_parafac executed)", {"cfg": m[1], "observed": m[2]})
         elif m[0] == "admm":
             chk.disagreement("corr:C11 admm (Model/Constraints.v admm skeleton vs provenance of the primal variable returned by tensorly.solvers.admm.admm)",
                              {"cfg": m[1], "observed_provenance": m[2]})
@@ -1749,9 +1966,11 @@ def run(chk):
         "the predicates judge the column-wise count <= k (implied by the whole-matrix count) and accept either reading of the norm (whole factor, or every non-zero column)",
         "a user-supplied initial CP tensor is not passed through the operators (documented); its factors are judged only where the run updates them, "
         "or when the supplied factors were feasible",
-        "inner budget 0 raises in the code (x_split unbound) and is Err in the model; compared through the trace / admm correspondence "
+        "inner budget 0: admm returns its start without validating or projecting (fix fe4edf7), in the code and in the model; compared through the trace / admm correspondence "
         "(a run that raises there is not judged by the predicates)"]
     chk.trusted += ["module-attribute interposition of proximal_operator (records order, validated constraint, output) for the provenance traces",
+                    "module-attribute interposition of admm in tensorly.decomposition._constrained_cp (records the returned x, x_split per mode) for the stopping-rule stream; "
+                    "the values of the constraint / reconstruction errors are recorded, not modelled",
                     "numerical content of the ADMM step, MTTKRP, SVD and of the operators is abstract in the model (arbitrary functions)"]
     return finish_with_local_known(chk, CLASSIFIERS)
 
@@ -1865,6 +2084,10 @@ def replay(payload):
     inp = payload["inputs"]
     if "cfg" in inp:
         inp = inp["cfg"]
+    if inp.get("kind") == "stopnum":
+        _, fails = run_stop_num(inp)
+        print("replay stopping rule:", json.dumps(inp)[:300], "->", fails or "holds")
+        return 1 if fails else 0
     if inp.get("kind") == "admm":
         rec = Recorder()
         _, fails, _ = run_admm(inp, rec)
